@@ -313,16 +313,25 @@ def run(ctx: Any, prog: Program) -> None:
     ok = 'string_bracket' in kw and isinstance(kw['string_bracket'], ast.Constant)
     # ---- R5 (parse side) ---------------------------------------------------------------------------
     # list mutations of the current block: only .append, or index-store guarded by a PROP_FLAG test
-    b = borrowed_names(parse, {'cur_block_contents'})
+    # the local(s) holding the child list of the block being filled: bound together with / from a `._value` attribute
+    child_lists = set()
+    for a_ in walk_no_nested(parse):
+        if isinstance(a_, ast.Assign):
+            names_ = [t.id for t in a_.targets if isinstance(t, ast.Name)]
+            if names_ and (any(isinstance(t, ast.Attribute) and t.attr == '_value' for t in a_.targets) or (isinstance(a_.value, ast.Attribute) and a_.value.attr == '_value')):
+                child_lists.update(names_)
+    if not child_lists:
+        raise AnalysisError('Keyvalues.parse: the local holding the current child list (bound from/with `._value`) was not found')
+    b = borrowed_names(parse, set(child_lists))
     for n in walk_no_nested(parse):
-        if isinstance(n, ast.Call) and isinstance(n.func, ast.Attribute) and dotted(n.func.value) == 'cur_block_contents':
+        if isinstance(n, ast.Call) and isinstance(n.func, ast.Attribute) and dotted(n.func.value) in child_lists:
             if n.func.attr in ('insert', 'sort', 'reverse', 'pop', 'remove', 'extend', 'clear'):
                 ctx.check('C01.R5', False, kv, n, f'parse reorders/drops children via cur_block_contents.{n.func.attr}()')
             elif n.func.attr == 'append':
                 ctx.check('C01.R5', True, kv, n, 'append keeps document order')
         if isinstance(n, ast.Assign):
             for t in n.targets:
-                if isinstance(t, ast.Subscript) and dotted(t.value) == 'cur_block_contents':
+                if isinstance(t, ast.Subscript) and dotted(t.value) in child_lists:
                     # must be nested under `if <x> is PROP_FLAG`
                     p = kv.parents.get(n)
                     guarded = False
@@ -363,11 +372,15 @@ def run(ctx: Any, prog: Program) -> None:
     # the writer produces.
     ctx.rule('C01.R7', "Keyvalues.parse refuses string content only for a literal '\\n' / '\\r' (names; values on request)", floor=2)
     content_vars: Set[str] = set()
+    # the tokenizer local: whatever is assigned a Tokenizer(...) instance
+    tok_vars = {t.id for a in walk_no_nested(parse) if isinstance(a, ast.Assign) and any(isinstance(c, ast.Call) and dotted(c.func) == 'Tokenizer' for c in ast.walk(a.value))
+                for t in a.targets if isinstance(t, ast.Name)} or {'tokenizer'}
+    tok_calls = set(tok_vars) | {'next'} | {v + '.__call__' for v in tok_vars}
     for n in walk_no_nested(parse):
-        if isinstance(n, ast.Assign) and isinstance(n.value, ast.Call) and dotted(n.value.func) in ('tokenizer', 'next', 'tokenizer.__call__') and isinstance(n.targets[0], ast.Tuple) and len(n.targets[0].elts) == 2 \
+        if isinstance(n, ast.Assign) and isinstance(n.value, ast.Call) and dotted(n.value.func) in tok_calls and isinstance(n.targets[0], ast.Tuple) and len(n.targets[0].elts) == 2 \
                 and isinstance(n.targets[0].elts[1], ast.Name):
             content_vars.add(n.targets[0].elts[1].id)
-        if isinstance(n, ast.For) and isinstance(n.target, ast.Tuple) and len(n.target.elts) == 2 and isinstance(n.target.elts[1], ast.Name) and 'tokenizer' in U(n.iter):
+        if isinstance(n, ast.For) and isinstance(n.target, ast.Tuple) and len(n.target.elts) == 2 and isinstance(n.target.elts[1], ast.Name) and any(isinstance(x, ast.Name) and x.id in tok_vars for x in ast.walk(n.iter)):
             content_vars.add(n.target.elts[1].id)
     if not content_vars:
         raise AnalysisError('Keyvalues.parse: token value variables not found')
